@@ -995,6 +995,44 @@ SYNTH_STATIC = {
         return;
     }
 }''',
+    '__collect_try_string': '''fn __collect_try_string(_1: &mut I) -> R {
+    bb0: {
+        _7 = Vec::<T>::new() -> [return: bb1, unwind continue];
+    }
+    bb1: {
+        _2 = __iter_next(copy _1) -> [return: bb2, unwind continue];
+    }
+    bb2: {
+        _3 = discriminant(_2);
+        switchInt(move _3) -> [0: bb6, otherwise: bb3];
+    }
+    bb3: {
+        _4 = move ((_2 as Some).0: T);
+        _8 = __try_is_output(copy _4) -> [return: bb4, unwind continue];
+    }
+    bb4: {
+        switchInt(move _8) -> [0: bb7, otherwise: bb5];
+    }
+    bb5: {
+        _9 = __try_output(move _4) -> [return: bb8, unwind continue];
+    }
+    bb8: {
+        _5 = &mut _7;
+        _6 = Vec::<T>::push(move _5, move _9) -> [return: bb1, unwind continue];
+    }
+    bb6: {
+        _10 = __vec_to_string(move _7) -> [return: bb10, unwind continue];
+    }
+    bb10: {
+        _0 = __try_from_output(move _10, const 1_usize) -> [return: bb9, unwind continue];
+    }
+    bb7: {
+        _0 = __try_residual(move _4) -> [return: bb9, unwind continue];
+    }
+    bb9: {
+        return;
+    }
+}''',
     '__drain': '''fn __drain(_1: &mut I) -> Vec {
     bb0: {
         _0 = Vec::<T>::new() -> [return: bb1, unwind continue];
@@ -2233,7 +2271,8 @@ def model(ex, st, c, args):
             mt = re.search(r'collect::<(?:std::result::|core::result::)?(Result|Option|std::option::Option)<', raw)
             if mt:
                 st.try_kind = 'Option' if 'Option' in mt.group(1) else 'Result'
-                return ('BODY', synth_static(ex, '__collect_try'), [Ref(st.new_cell(it), [])])
+                to_string = re.search(r'collect::<(?:std::result::|core::result::)?(?:Result|Option|std::option::Option)<(?:std::string::)?String\b', raw) is not None
+                return ('BODY', synth_static(ex, '__collect_try_string' if to_string else '__collect_try'), [Ref(st.new_cell(it), [])])
             return ('BODY', synth_static(ex, '__drain'), [Ref(st.new_cell(it), [])])
         raise Unsupported(c)
     if c == '__vec_to_string':
